@@ -1,6 +1,8 @@
 import Proofs.Lemmas.CountLaws
 import Proofs.Lemmas.CountLawsQtm
 import Proofs.Lemmas.CountLawsRead
+import Proofs.Lemmas.CountLawsReadLzx
+import Proofs.Lemmas.CountLawsReadQtm
 import Proofs.Props.C02Qtm
 import Proofs.Props.C07
 import Proofs.Props.C07Chm
@@ -28,11 +30,14 @@ Consequences:
   satisfy in *every* state): re-proved over a decoder invariant that `initDec` establishes and
   `decompress` keeps (`CabInv.extract_written_le`), and instantiated with `CabDecOk` (an MSZIP state
   has its window; nothing asked of the others) for **every** compression type.  The upper bound is
-  unconditional.  "OK ⇒ complete" carries `ReadErrLaw` (a decoder reporting READ has seen the feeder
-  fail) as a hypothesis in general (`C07_cab_ok_complete_partial`); for **stored and MSZIP folders** it
-  is proved too, over a joint decoder/feeder invariant `CabJ` (feeder not in salvage mode, a sticky READ
-  goes with `readError ≠ OK`; `Proofs/Lemmas/CountLawsRead.lean`): `C07_cab_mszip_ok_complete` has no
-  hypothesis on the decoders left.
+  unconditional.  "OK ⇒ complete" (strict mode) needs `ReadErrLaw` (a decoder reporting READ has seen
+  the feeder fail), which is a joint property of decoder and feeder; it is proved for **every
+  compression type** over the joint invariant `CabJAll` (feeder not in salvage mode, a sticky READ goes
+  with `readError ≠ OK`, a real input buffer; `Proofs/Lemmas/CountLawsRead.lean`, `…ReadLzx.lean`,
+  `…ReadQtm.lean`): `C07_cab_ok_complete` has no hypothesis on the decoders left, `C07_cab_cache_kept`
+  shows the invariant is kept by every `extract`, `C07_cab_fresh_ok_complete` is the no-cache case.
+  (`C07_cab_mszip_ok_complete`, over `CabJ`, is the earlier stored + MSZIP instance;
+  `C07_cab_ok_complete_partial` the version with `ReadErrLaw` as a hypothesis.)
 * `chmd_extract`: `LzxBound` of `C07Chm.lean` is discharged (`C07_chm_written_le_unconditional`).
 * `oabd_decompress` / `_incremental`: `LzxCount` of `OabCount.lean` is discharged.
 -/
@@ -328,6 +333,145 @@ theorem C07_cab_mszip_read_means_feeder_failed (files : Files) (dec : Dec) (fd :
     o.feeder.readError ≠ .ok :=
   (CountLaws.CabJoint.cabJ_callOk files dec fd n o hj h).2.2 he
 
+/-! ### OK means complete, every compression type -/
+section all
+open MsPack.CountLaws.CabJoint MsPack.CountLaws.ReadErr MsPack.CountLaws.ReadErrLzx MsPack.CountLaws.ReadErrQtm
+
+/-- the joint decoder/feeder invariant of strict-mode sessions, every compression type: the feeder
+    is not in salvage mode, a sticky READ in the decoder goes with a failed feeder, the decoder has a
+    real input buffer (and an MSZIP state its window) -/
+def CabJAll : Dec → Feeder → Prop
+  | .none _ e, fd => fd.salvage = false ∧ (e = .read → fd.readError ≠ .ok)
+  | .mszip st, fd => fd.salvage = false ∧ st.inbufSize ≠ 0 ∧ Zip.WinOk st ∧ (st.error = .read → fd.readError ≠ .ok)
+  | .lzx st, fd => fd.salvage = false ∧ st.inbufSize ≠ 0 ∧ (st.error = .read → fd.readError ≠ .ok)
+  | .qtm st, fd => fd.salvage = false ∧ st.inbufSize ≠ 0 ∧ (st.error = .read → fd.readError ≠ .ok)
+  | .unsupported _, _ => True
+
+theorem CabJAll_of_CabJ (dec : Dec) (fd : Feeder) (h : CabJ dec fd) : CabJAll dec fd := by
+  cases dec with
+  | none bs e => exact h
+  | mszip st => exact h
+  | qtm st => exact absurd h id
+  | lzx st => exact absurd h id
+  | unsupported k => trivial
+
+theorem cabJAll_callOk (files : Files) : CallOk files CabJAll := by
+  intro dec fd n o hj h
+  cases dec with
+  | none bs e =>
+    obtain ⟨h1, h2, h3⟩ := cabJ_callOk files (.none bs e) fd n o hj h
+    exact ⟨CabJAll_of_CabJ _ _ h1, h2, h3⟩
+  | mszip st =>
+    obtain ⟨h1, h2, h3⟩ := cabJ_callOk files (.mszip st) fd n o hj h
+    exact ⟨CabJAll_of_CabJ _ _ h1, h2, h3⟩
+  | lzx st =>
+    obtain ⟨hs, hb, hr⟩ := hj
+    unfold decompress at h
+    simp only at h
+    split at h
+    · cases h
+    · rename_i zo hz
+      simp only [Except.ok.injEq, Option.some.injEq] at h
+      subst h
+      have hlj : LJ ({ st with src := fd } : Lzx.St Feeder) := ⟨hs, hb, hr⟩
+      obtain ⟨⟨z1, z2, z3⟩, z4⟩ := lzx_readErr files _ _ n zo hlj hz
+      exact ⟨⟨z1, z2, z3⟩, (CountLaws.Lzx.decompress_count (feederSrc files) _ _ n zo hz).2, z4⟩
+  | qtm st =>
+    obtain ⟨hs, hb, hr⟩ := hj
+    unfold decompress at h
+    simp only at h
+    split at h
+    · cases h
+    · rename_i zo hz
+      simp only [Except.ok.injEq, Option.some.injEq] at h
+      subst h
+      have hqj : QJ ({ st with src := fd } : Qtm.St Feeder) := ⟨hs, hb, hr⟩
+      obtain ⟨⟨z1, z2, z3⟩, z4⟩ := qtm_readErr files _ _ n zo hqj hz
+      exact ⟨⟨z1, z2, z3⟩, (CountLaws.Qtm.decompress_count (feederSrc files) _ _ n zo hz).2, z4⟩
+  | unsupported k =>
+    unfold decompress at h
+    cases h
+
+/-- a decoder freshly set up by a strict-mode `extract` is in `CabJAll`, whatever the method -/
+theorem freshAll_stateOk (files : Files) (p : Params) (hs : p.salvage = false) (m : Member)
+    (key : Nat) (ds : DState) (h : freshDState files p m key = .ok ds) : StateOk CabJAll ds := by
+  unfold freshDState at h
+  split at h
+  · cases h
+  · split at h
+    · cases h
+    · split at h
+      · cases h
+      · rename_i dec0 hi
+        cases h
+        intro dec hdec
+        simp only [Option.some.injEq] at hdec
+        subst hdec
+        unfold initDec at hi
+        split at hi
+        · cases hi
+          exact ⟨hs, fun hc => by cases hc⟩
+        · cases hz : Zip.init nullFeeder p.bufSize p.fixMszip p.fill with
+          | none => simp [hz] at hi
+          | some st =>
+            simp only [hz, Option.map_some, Option.some.injEq] at hi
+            subst hi
+            have h1 := zipInit_ok _ _ _ _ _ hz
+            exact ⟨hs, h1.1, Zip.init_winOk _ _ _ _ _ hz, fun hc => by rw [h1.2] at hc; cases hc⟩
+        · split at hi
+          · cases hz : Qtm.init nullFeeder ((m.compType >>> 8) &&& 0x1f) p.bufSize p.fill with
+            | none => simp [hz] at hi
+            | some st =>
+              simp only [hz, Option.map_some, Option.some.injEq] at hi
+              subst hi
+              have h1 := qtmInit_ok _ _ _ _ _ hz
+              exact ⟨hs, h1.1, fun hc => by rw [h1.2] at hc; cases hc⟩
+          · cases hi; trivial
+        · split at hi
+          · cases hz : Lzx.init nullFeeder ((m.compType >>> 8) &&& 0x1f) 0 p.bufSize 0 false p.fill with
+            | none => simp [hz] at hi
+            | some st =>
+              simp only [hz, Option.map_some, Option.some.injEq] at hi
+              subst hi
+              have h1 := lzxInit_ok _ _ _ _ _ _ _ _ hz
+              exact ⟨hs, h1.1, fun hc => by rw [h1.2] at hc; cases hc⟩
+          · cases hi; trivial
+        · cases hi
+
+/-- **C07, OK means complete, every compression type, no hypothesis on the decoders left**: in strict
+    mode, whatever the cabinet files, with no cached decoder or one in `CabJAll` (what a strict-mode
+    `extract` sets up and every `decompress` call keeps, see `C07_cab_cache_kept`), MSPACK_ERR_OK
+    implies exactly the declared number of bytes -/
+theorem C07_cab_ok_complete (files : Files) (p : Params) (hs : p.salvage = false)
+    (d : Option DState) (m : Member) (hd : ∀ ds, d = some ds → StateOk CabJAll ds)
+    (w : Bytes) (d' : Option DState)
+    (h : extract files p d m = .done .ok (some w) d') : w.length = m.length :=
+  CabJoint.extract_ok_complete files CabJAll (cabJAll_callOk files) p hs d m hd
+    (fun key ds hf => freshAll_stateOk files p hs m key ds hf) w d' h
+
+/-- the hypothesis on the cache is an invariant of strict-mode sessions: the cache `extract` hands
+    back, whatever the status, is in `CabJAll` again -/
+theorem C07_cab_cache_kept (files : Files) (p : Params) (hs : p.salvage = false)
+    (d : Option DState) (m : Member) (hd : ∀ ds, d = some ds → StateOk CabJAll ds)
+    (e : Err) (w : Option Bytes) (ds' : DState)
+    (h : extract files p d m = .done e w (some ds')) : StateOk CabJAll ds' :=
+  CabJoint.extract_stateOk files CabJAll (cabJAll_callOk files) p d m hd
+    (fun key ds hf => freshAll_stateOk files p hs m key ds hf) e w ds' h
+
+/-- with no cached decoder: `C07_ok_means_complete_partial` of `C07.lean` without its two hypotheses -/
+theorem C07_cab_fresh_ok_complete (files : Files) (p : Params) (hs : p.salvage = false)
+    (m : Member) (w : Bytes) (d' : Option DState)
+    (h : extract files p none m = .done .ok (some w) d') : w.length = m.length :=
+  C07_cab_ok_complete files p hs none m (fun _ h => by cases h) w d' h
+
+/-- the decoder's own READ report is backed by the feeder: `ReadErrLaw` of `C07.lean`, pointwise on `CabJAll` -/
+theorem C07_cab_read_means_feeder_failed (files : Files) (dec : Dec) (fd : Feeder) (n : Nat) (o : DecOut)
+    (hj : CabJAll dec fd) (h : decompress files dec fd n = .ok (some o)) (he : o.err = .read) :
+    o.feeder.readError ≠ .ok :=
+  (cabJAll_callOk files dec fd n o hj h).2.2 he
+
+end all
+
 end MsPack.Cab
 
 /-! ## CHM: `LzxBound` discharged -/
@@ -451,5 +595,22 @@ def runCab (len : Nat) : Option (Err × Option Bytes) :=
 /-- `cabd_extract` on the MSZIP folder (no cache): a member declared 3 long — OK, 3 bytes; declared 5 — the 3 there are, and not OK -/
 example : runCab 3 = some (.ok, some [0x78, 0x79, 0x7A]) ∧
     runCab 5 = some (.dataformat, some [0x78, 0x79, 0x7A]) := by decide +kernel
+
+/-- a one-block LZX folder (window bits 15): CFDATA header and the stream of `C02Lzx.lean` -/
+def lzxCabFile : Bytes := [0, 0, 0, 0, 21, 0, 5, 0] ++ Lzx.helloStream
+
+def lzxMember (len : Nat) : Member :=
+  { length := len, offset := 0, folderKey := some 0, mergePrev := false, numBlocks := 1, compType := 0x0F03,
+    parts := [⟨"l.cab", 0, 0⟩] }
+
+def runLzxCab (len : Nat) : Option (Err × Option Bytes) :=
+  match extract [("l.cab", lzxCabFile)] {} none (lzxMember len) with
+  | .done e w _ => some (e, w)
+  | _ => none
+
+/-- `cabd_extract` on the LZX folder, strict mode, no cache (the hypotheses of `C07_cab_fresh_ok_complete`):
+    a member declared 5 long — OK, 5 bytes; declared 7 — the 5 there are, and not OK -/
+example : ({} : Params).salvage = false ∧ runLzxCab 5 = some (.ok, some [104, 101, 108, 108, 111]) ∧
+    runLzxCab 7 = some (.decrunch, some [104, 101, 108, 108, 111]) := by decide +kernel
 
 end MsPack.C07Decoders
